@@ -97,7 +97,7 @@ def c13_post(x, fault):
 
 
 # ---- C14 ---------------------------------------------------------------------------------------
-FAULT_KINDS_LOCAL = ["raise"]
+FAULT_KINDS_LOCAL = ["raise", "raise_type", "raise_conn"]
 FAULT_KINDS_MEM = ["raise", "close", "die", "die_after"]
 
 
@@ -131,6 +131,12 @@ def inject(run, stub, f):
     kind = f["kind"]
     if kind == "raise":
         raise InjectedFault(f"injected failure in {stub.sid}")
+    if kind == "raise_type":
+        # exception types that mosaik itself handles around a request (TypeError: JSON
+        # serialisation diagnosis in SimRunner.step) must not make a simulator's failure vanish
+        raise TypeError(f"injected TypeError in {stub.sid}")
+    if kind == "raise_conn":
+        raise ConnectionAbortedError(f"injected ConnectionError in {stub.sid}")
     ch = getattr(stub, "_mem_channel", None)
     if kind == "die_after":
         # the process answers this request and exits right afterwards (dies while idle)
@@ -215,6 +221,9 @@ def shutdown_verdicts(x, prop, exempt):
     for (sim, (r_m, w_m), (r_s, w_s), ch_m) in run.channels:
         if not (w_m.closed or r_m._eof):
             add("channel-left-open", f"connection to {sim.sid} neither closed nor at EOF")
+        elif run.closed_by_mosaik and not getattr(w_m, "close_called", True):
+            add("socket-not-closed", f"mosaik never closed its end of the connection to {sim.sid} "
+                                     f"(the peer is gone, the descriptor stays open)")
     return out
 
 
@@ -315,6 +324,10 @@ def check(prop, tier):
                 jobs.append((prop, name + "/" + tr, scen, fault,
                              dict(lazy=True, cache=True, transport=tr),
                              1, 2500))
+        for name, scen, fault in c13_cases(tier):
+            if fault["what"] == "time" or fault["k"] == 0:
+                jobs.append((prop, name + "/local/nocache", scen, fault,
+                             dict(lazy=True, cache=False, transport="local"), 0, 1500))
         if tier == "quick":
             for name, scen, fault in c13_cases(tier):
                 if fault["k"] == 0:
